@@ -358,6 +358,10 @@ deriving DecidableEq, Repr
 
 abbrev R := Except RErr
 
+def mapOk {α β : Type} (f : α → β) : R α → R β
+  | .ok a => .ok (f a)
+  | .error e => .error e
+
 def isWs (c : Char) : Bool := c == ' ' || c == '\n' || c == '\t' || c == '\r'
 
 /-- characters that end a token, a `#\` token or a `#b…` number -/
@@ -466,10 +470,7 @@ def intTokChar (c : Char) : Bool :=
 def readRadix (b : Nat) (r : List Char) : R (Obj × List Char) :=
   let tok := r.takeWhile intTokChar
   let rest := r.dropWhile intTokChar
-  if termOrEnd rest then
-    match radixNumber b tok with
-    | .ok o => .ok (o, rest)
-    | .error e => .error e
+  if termOrEnd rest then mapOk (fun o => (o, rest)) (radixNumber b tok)
   else .error .unexpected
 
 /-- code.go `resolveToken` (without times and floats) -/
@@ -519,6 +520,20 @@ def closeList (elems : List Obj) : Obj :=
 
 def decDigits : List Char → List Char := fun cs => cs.takeWhile (isDigitB 10)
 
+/-- `#\…`: the character token (the character after `#\` is taken whatever it is) -/
+def readCharTok (c : Char) (r : List Char) : R (Obj × List Char) :=
+  let tok := c :: r.takeWhile charTokChar
+  let rest := r.dropWhile charTokChar
+  if termOrEnd rest then mapOk (fun ch => (Obj.chr ch, rest)) (charOfToken tok)
+  else .error .unexpected
+
+/-- a bare token: number, `t`, `nil` or symbol -/
+def readToken (rbase : Nat) (c : Char) (r : List Char) : R (Obj × List Char) :=
+  let tok := c :: r.takeWhile tokenChar
+  let rest := r.dropWhile tokenChar
+  if termOrEnd rest then mapOk (fun o => (o, rest)) (classifyTok rbase tok)
+  else .error .unexpected
+
 mutual
   /-- one object from the front of the text; returns it with the rest of the text -/
   def read1 (rbase : Nat) : Nat → List Char → R (Obj × List Char)
@@ -526,54 +541,44 @@ mutual
     | fuel + 1, cs =>
       match skipWs cs with
       | [] => .error .eof
-      | '(' :: r => do
-        let (elems, rest) ← readElems rbase fuel r []
-        pure (closeList elems, rest)
-      | ')' :: _ => .error .closeParen
-      | '"' :: r => do
-        let (s, rest) ← readDelimited '"' (r.length + 1) r []
-        pure (.str s, rest)
-      | '|' :: r => do
-        let (s, rest) ← readDelimited '|' (r.length + 1) r []
-        pure (.sym s, rest)
-      | '#' :: '\\' :: c :: r =>
-        let tok := c :: r.takeWhile charTokChar
-        let rest := r.dropWhile charTokChar
-        if termOrEnd rest then do
-          let ch ← charOfToken tok
-          pure (.chr ch, rest)
-        else .error .unexpected
-      | '#' :: '(' :: r => do
-        let (elems, rest) ← readElems rbase fuel r []
-        pure (.vec (mkProper elems), rest)
-      | '#' :: c :: r =>
-        if c = 'b' ∨ c = 'B' then readRadix 2 r
-        else if c = 'o' ∨ c = 'O' then readRadix 8 r
-        else if c = 'x' ∨ c = 'X' then readRadix 16 r
-        else if isDigitB 10 c then
-          let ds := c :: decDigits r
-          match parseNat 10 ds, r.dropWhile (isDigitB 10) with
-          | some n, m :: r2 =>
-            if m = 'r' ∨ m = 'R' then
-              if 2 ≤ n ∧ n ≤ 36 then readRadix n r2 else .error .badNumber
-            else if m = 'A' ∨ m = 'a' then
-              match r2 with
-              | '(' :: r3 => do
-                let (elems, rest) ← readElems rbase fuel r3 []
-                pure (if n = 1 then .vec (mkProper elems) else .arr n (mkProper elems), rest)
-              | _ => .error .unexpected
-            else .error .unexpected
-          | _, _ => .error .unexpected
-        else .error .unexpected
-      | '#' :: _ => .error .eof
       | c :: r =>
-        if tokenStartChar c then
-          let tok := c :: r.takeWhile tokenChar
-          let rest := r.dropWhile tokenChar
-          if termOrEnd rest then do
-            let o ← classifyTok rbase tok
-            pure (o, rest)
-          else .error .unexpected
+        if c = '(' then
+          mapOk (fun p => (closeList p.1, p.2)) (readElems rbase fuel r [])
+        else if c = ')' then .error .closeParen
+        else if c = '"' then
+          mapOk (fun p => (Obj.str p.1, p.2)) (readDelimited '"' (r.length + 1) r [])
+        else if c = '|' then
+          mapOk (fun p => (Obj.sym p.1, p.2)) (readDelimited '|' (r.length + 1) r [])
+        else if c = '#' then
+          match r with
+          | [] => .error .eof
+          | c2 :: r2 =>
+            if c2 = '\\' then
+              match r2 with
+              | [] => .error .eof
+              | c3 :: r3 => readCharTok c3 r3
+            else if c2 = '(' then
+              mapOk (fun p => (Obj.vec (mkProper p.1), p.2)) (readElems rbase fuel r2 [])
+            else if c2 = 'b' ∨ c2 = 'B' then readRadix 2 r2
+            else if c2 = 'o' ∨ c2 = 'O' then readRadix 8 r2
+            else if c2 = 'x' ∨ c2 = 'X' then readRadix 16 r2
+            else if isDigitB 10 c2 then
+              match parseNat 10 (c2 :: decDigits r2), r2.dropWhile (isDigitB 10) with
+              | some n, m :: r3 =>
+                if m = 'r' ∨ m = 'R' then
+                  if 2 ≤ n ∧ n ≤ 36 then readRadix n r3 else .error .badNumber
+                else if m = 'A' ∨ m = 'a' then
+                  match r3 with
+                  | [] => .error .eof
+                  | p :: r4 =>
+                    if p = '(' then
+                      mapOk (fun p => (if n = 1 then Obj.vec (mkProper p.1) else Obj.arr n (mkProper p.1), p.2))
+                        (readElems rbase fuel r4 [])
+                    else .error .unexpected
+                else .error .unexpected
+              | _, _ => .error .unexpected
+            else .error .unexpected
+        else if tokenStartChar c then readToken rbase c r
         else .error .unexpected
   /-- the elements of a list up to the closing parenthesis -/
   def readElems (rbase : Nat) : Nat → List Char → List Obj → R (List Obj × List Char)
@@ -581,15 +586,17 @@ mutual
     | fuel + 1, cs, acc =>
       match skipWs cs with
       | [] => .error .eof
-      | ')' :: r => .ok (acc.reverse, r)
-      | c :: r => do
-        let (o, rest) ← read1 rbase fuel (c :: r)
-        readElems rbase fuel rest (o :: acc)
+      | c :: r =>
+        if c = ')' then .ok (acc.reverse, r)
+        else
+          match read1 rbase fuel (c :: r) with
+          | .ok (o, rest) => readElems rbase fuel rest (o :: acc)
+          | .error e => .error e
 end
 
 /-- the whole text holds exactly one object (what `slip.Read` returning one object means) -/
 def readAll (rbase : Nat) (cs : List Char) : R Obj := do
-  let (o, rest) ← read1 rbase (cs.length + 1) cs
+  let (o, rest) ← read1 rbase (3 * cs.length + 4) cs
   match skipWs rest with
   | [] => pure o
   | _ => .error .unexpected
